@@ -25,7 +25,7 @@ VERIFY_OF = {"CHK": "CHK-Verifier", "SSK": "SSK-Verifier", "SSK-RO": "SSK-Verifi
 
 
 def plan(tier):
-    n = 250 if tier == "quick" else 4000
+    n = 750 if tier == "quick" else 4000
     return [{"kind": "hyp", "n": n} for _ in range(16)]
 
 
